@@ -24,11 +24,17 @@ type config struct {
 	Len       int
 	Cache     string
 	Entry     string
+	Query     bool // the points differ in nothing but their query string
 }
 
 func scenario(c config, behs []string) *sims.Scenario {
 	sc := &sims.Scenario{Len: c.Len, CAKind: c.CAKind, Entry: c.Entry, CRLRoute: c.Route, Cache: c.Cache}
 	sh := sims.HTTPShape(0, len(behs))
+	if c.Query {
+		for i := range sh.CRL {
+			sh.CRL[i] = "httpq"
+		}
+	}
 	sh.Freshest = c.Freshest
 	sc.Plans = make([]sims.CertPlan, c.Len)
 	sc.Plans[0] = sims.CertPlan{Shape: sh, CRL: behs}
@@ -117,7 +123,7 @@ func nontrivial(c config, behs []string) bool {
 }
 
 func run(r *core.Run) int {
-	r.Rule = "CRL behaviour alphabet assigned to 1..3 distribution points in every order x {caller-supplied fetcher, real HTTPFetcher over the simulated network} x certificate with/without freshest-CRL extension x issuer with/without cRLSign x {EC, RSA issuer}; " +
+	r.Rule = "CRL behaviour alphabet assigned to 1..3 distribution points in every order x {caller-supplied fetcher, real HTTPFetcher over the simulated network} x certificate with/without freshest-CRL extension x issuer with/without cRLSign x {EC, RSA issuer}; pairs of points that differ only in their query string (cache on/off); " +
 		"non-trivial = some point is not clean, or a delta is present, or the certificate carries a freshest-CRL pointer; distinct by scenario descriptor"
 	r.Assume("CRL nextUpdate instants are 2001 or 2096")
 	r.Assume("an unknown critical extension on an entry for ANOTHER serial admits both OK and Unknown (C10 says other serials never matter, C05 says no unknown critical extension at entry level)")
@@ -175,6 +181,21 @@ func run(r *core.Run) int {
 		jobs = append(jobs, job{config{CAKind: "p256", Route: "http", Len: 2, Entry: "validate-deprecated"}, []string{"clean", a}})
 		jobs = append(jobs, job{config{CAKind: "p256", Route: "http", Len: 2, Entry: "validate", Cache: "healthy"}, []string{"delta-ok", a}})
 	}
+	// distribution points that differ in nothing but their query string, with and
+	// without a cache in front of them
+	{
+		alpha := append(append([]string{}, sims.CRLBehaviours...), sims.CRLHTTPOnly...)
+		for _, cache := range []string{"", "healthy"} {
+			for _, a := range alpha {
+				for _, b := range alpha {
+					if r.Quick() && rng.IntN(3) != 0 {
+						continue
+					}
+					jobs = append(jobs, job{config{CAKind: "p256", Route: "http", Len: 2, Entry: "validate", Cache: cache, Query: true}, []string{a, b}})
+				}
+			}
+		}
+	}
 	r.Set("alphabet_fetcher", sims.CRLBehaviours)
 	r.Set("alphabet_http_extra", sims.CRLHTTPOnly)
 	r.Parallel(len(jobs), func(i int) {
@@ -184,6 +205,9 @@ func run(r *core.Run) int {
 		judge(r, sc, out)
 		if nontrivial(j.c, j.behs) {
 			r.Nontrivial(sc.Desc())
+		}
+		if j.c.Query {
+			r.Count("query-distinguished-points", 1)
 		}
 		if out.Panic == nil && len(out.Results) > 0 && out.Results[0] != nil {
 			r.Sample("result-"+out.Results[0].Result.String()+"-"+j.c.Route, map[string]any{"scenario": sc.Desc(), "result": sims.CanonString(sims.Canon(out.Results))})
